@@ -795,6 +795,12 @@ def followup_tasks(thorough):
                     chs += [c for c in G.chains(G.hopcodes((302,), forms), 2, 2)]
                 for i in range(0, len(chs), 200):
                     tasks.append(("followup", client, start, method, tuple(chs[i:i + 200])))
+                if method == "GET":
+                    # the caller's policy strips nothing on redirects (an empty set) / only a field of its own: which
+                    # origin a follow-up names in Host does not depend on what the caller wants stripped
+                    for pol in (G.R(remove=[]), G.R(remove=["X-Own"])):
+                        for i in range(0, len(chs), 200):
+                            tasks.append(("followup", client, start, method, tuple(chs[i:i + 200]), pol))
     return tasks
 
 
@@ -807,11 +813,14 @@ def _host_names(hv, origin):
 
 def run_followups(task):
     from mc import c05_chains as G
-    _, client, start, method, chs = task
+    _, client, start, method, chs = task[:5]
+    pol = task[5] if len(task) > 5 else None
     acc = Acc()
     for hops in chs:
         case = {"client": client, "start": start, "hops": hops, "mode": "c", "method": method,
                 "body": b"b" if method == "POST" else None, "headers": None}
+        if pol is not None:
+            case["req_policy"] = pol
         res = G.execute(case)
         acc.n += 1
         acc.counters["followup_chains"] += 1
@@ -827,8 +836,11 @@ def run_followups(task):
                 acc.outcomes["followup/%s/%s/%s/host-ok" % (client, q["via"], kind)] += 1
             else:
                 acc.outcomes["followup/%s/%s/%s/host-wrong" % (client, q["via"], kind)] += 1
-                acc.violation("followup-host-header", {"client": client, "via": q["via"], "hop": kind, "request_no": min(j, 2)},
-                              {"kind": "followup", "client": client, "start": start, "hops": hops, "method": method},
+                sig = {"client": client, "via": q["via"], "hop": kind, "request_no": min(j, 2)}
+                if pol is not None:
+                    sig["strip_set"] = "empty" if not pol[1]["remove"] else "own-field"
+                acc.violation("followup-host-header", sig,
+                              {"kind": "followup", "client": client, "start": start, "hops": hops, "method": method, "policy": pol},
                               observed={"request": j, "host": q["host"], "addressed_to": list(q["origin"]), "via": q["via"]},
                               expected="Host names %s:%d (default port may be elided)" % (q["origin"][1], q["origin"][2]))
     return acc
@@ -930,7 +942,10 @@ def run(ctx):
 def replay(case):
     warnings.simplefilter("ignore")
     if case.get("kind") == "followup":
-        acc = run_followups(("followup", case["client"], case["start"], case["method"], (case["hops"],)))
+        t = ("followup", case["client"], case["start"], case["method"], (case["hops"],))
+        if case.get("policy") is not None:
+            t += (("R", dict(case["policy"][1])),)
+        acc = run_followups(t)
         return {"violations": acc.viol, "outcomes": dict(acc.outcomes)}
     acc = Acc()
     trace = []
